@@ -23,7 +23,7 @@ def queries(tier):
                     desc='checked policy, dynamic class not registered, route: ' + names[r] + ' -> unknown_class_error(type) then abort, nothing else first'))
     qs.append(q('final_wrong_dynamic_type', 5, pol=3, covers=(950,), desc='final on an object of another dynamic type -> method_table_error(type), abort'))
     from checks import C05
-    qs += [x for x in C05.queries(tier) if x.name.startswith('lookup_unregistered')]
+    qs += [x for x in C05.queries(tier) if x.name.startswith('lookup_')]
     from checks import update_common
     qs += update_common.c15_queries(tier)
     return qs
